@@ -4,7 +4,7 @@
  *   back edges (goto STATE_SWITCH), so it is checked per call, from a SYMBOLIC well-formed matcher state:
  *   WF(state) && chunk of exactly N bytes  ==>  memory safety, hand-out discipline, byte conservation, WF(state').
  *   Since the start state is arbitrary (within WF), one call covers every call history.
- * Part 2: dfcc contracts of the leaf helpers.
+ * (The leaf-helper contracts did not reach a passing state and are not delivered; see notes/c14.md.)
  */
 #ifndef C14_MPART_H
 #define C14_MPART_H
@@ -367,34 +367,5 @@ static void c14_parse_harness(vin_t in) {
 }
 #endif /* C14_PARSE_UNIT */
 
-/* ===================================================================================================== */
-/* Part 2: dfcc contracts of the leaf helpers */
-#ifdef C14_LEAF_UNITS
-/* htp_mpart_decode_quoted_cd_value_inplace: in-place writer over an inline bstr of fixed capacity WCAP.
- * Removes the backslash of the escapes \" and \\ : the result is never longer, at most every second byte disappears,
- * nothing outside the string's own payload is written, capacity and representation are unchanged; a string without a
- * backslash in front of its first byte keeps that first byte (position-0 fact; the rest of the content equality is
- * the bounded reference unit's business). */
-void contract_htp_mpart_decode_quoted_cd_value_inplace(bstr *b)
-__CPROVER_requires(__CPROVER_is_fresh(b, sizeof(bstr) + WCAP) && b->realptr == NULL && b->size == WCAP && b->len <= WCAP)
-__CPROVER_assigns(b->len, __CPROVER_object_upto(C14_BP(b), WCAP))
-__CPROVER_ensures(b->len <= __CPROVER_old(b->len) && 2 * (__CPROVER_old(b->len) - b->len) <= __CPROVER_old(b->len))
-__CPROVER_ensures(b->size == WCAP && b->realptr == NULL)
-__CPROVER_ensures(__CPROVER_old(b->len) >= 1 ==> b->len >= 1)
-;
-
-/* htp_mpartp_validate_boundary: read-only scan of the boundary; only the two header-boundary indicators may be added;
- * length 0 or > 70 and every byte outside [0-9A-Za-z-] and the RFC's "unusual" set raise INVALID (witness gk). */
-#define C14_HB (HTP_MULTIPART_HBOUNDARY_INVALID | HTP_MULTIPART_HBOUNDARY_UNUSUAL)
-#define C14_BCHAR_OK(c) (((c) >= '0' && (c) <= '9') || ((c) >= 'a' && (c) <= 'z') || ((c) >= 'A' && (c) <= 'Z') || (c) == '-')
-void contract_htp_mpartp_validate_boundary(bstr *boundary, uint64_t *flags)
-__CPROVER_requires(RO_BSTR(boundary) && __CPROVER_is_fresh(flags, sizeof(*flags)))
-__CPROVER_assigns(*flags)
-__CPROVER_ensures((*flags & ~(uint64_t) C14_HB) == (__CPROVER_old(*flags) & ~(uint64_t) C14_HB) && (*flags & __CPROVER_old(*flags)) == __CPROVER_old(*flags))
-__CPROVER_ensures((boundary->len == 0 || boundary->len > 70) ==> (*flags & HTP_MULTIPART_HBOUNDARY_INVALID))
-__CPROVER_ensures((gk < boundary->len && !C14_BCHAR_OK(C14_VB(boundary, gk)) && !C14_BUNUSUAL(C14_VB(boundary, gk))) ==> (*flags & HTP_MULTIPART_HBOUNDARY_INVALID))
-__CPROVER_ensures((gk < boundary->len && C14_BUNUSUAL(C14_VB(boundary, gk))) ==> (*flags & HTP_MULTIPART_HBOUNDARY_UNUSUAL))
-;
-#endif /* C14_LEAF_UNITS */
 
 #endif
